@@ -4,6 +4,7 @@ import (
 	"bytes"
 	"fmt"
 	"math/rand"
+	"os"
 	"testing"
 
 	sch "github.com/parsyl/parquet/schema"
@@ -173,8 +174,14 @@ func writeDeeps(t *testing.T, ds []Deep, ps int, batches []int, codec func(*Parq
 
 var deepCodecs = map[string]func(*ParquetWriter) error{"uncompressed": Uncompressed, "snappy": Snappy, "gzip": Gzip}
 
+func thorough() bool { return os.Getenv("VERIF_TIER") == "thorough" }
+
 func TestBoundedC03(t *testing.T) {
-	for round := 0; round < 24; round++ {
+	rounds := 24
+	if thorough() {
+		rounds = 480
+	}
+	for round := 0; round < rounds; round++ {
 		n := []int{1, 2, 3, 7, 20, 60}[round%6]
 		ds := randomDeeps(n, int64(500+round))
 		cname := []string{"uncompressed", "snappy", "gzip"}[round%3]
@@ -203,7 +210,11 @@ func TestBoundedC03(t *testing.T) {
 }
 
 func TestBoundedC01(t *testing.T) {
-	for round := 0; round < 30; round++ {
+	rounds := 30
+	if thorough() {
+		rounds = 400
+	}
+	for round := 0; round < rounds; round++ {
 		n := []int{0, 1, 2, 5, 9, 33, 90}[round%7]
 		ds := randomDeeps(n, int64(700+round))
 		cname := []string{"uncompressed", "snappy", "gzip"}[round%3]
